@@ -19,34 +19,34 @@ CHECKS = {
          "Every n<=1024 (quick) / 4096 (thorough) x all planners/types/directions with three dense distributions and a rotating structured family, the impulse basis for n<=64, and thousands of proptest-drawn cases weighted towards Bluestein/Rader primes and long radix chains up to 2^15 / 2^20 (plus primes near 10^6 in thorough), including dense vectors scaled by exact powers of two to both ends of the normal range (judged after exact rescaling). The worst observed error/bound ratio is reported (about 0.3 today).",
          "Reference precision: f64 for f32 results, double-double for f64 results. An accuracy regression that stays below the bound does not break the property and is only visible as a moved ratio.", "3/C02"),
  "C03": ("guard-page allocator (mmap + PROT_NONE pages flush against every caller buffer) under enumerated and proptest-drawn call shapes, on an optimised build and on a debug-assertion build; crash = violation with subprocess shrinking",
-         "Every n<=1024/4096 x planners x types x directions x entry points x chunk counts 1..8 with scratch of exactly the advertised length runs with all caller buffers guard-paged in both orientations and once half an element off a page boundary (weakest legal alignment); ill-shaped variants must panic, never fault; the debug-assertion build turns index errors of the unsafe accessors into classified panics. Thousands of structured lengths (all AVX row residues) are sampled.",
+         "Every n<=1024/4096 (plus ~70/110 landmark lengths up to 2^20/2^22 and every Rader prime up to 2^19/2^21 on AVX, 2^17/2^19 portable) x planners x types x directions x entry points x chunk counts 1..8 with scratch of exactly the advertised length runs with all caller buffers guard-paged in both orientations and once half an element off a page boundary (weakest legal alignment); ill-shaped variants must panic, never fault; the debug-assertion build turns index errors of the unsafe accessors into classified panics. Thousands of structured lengths (all AVX row residues) are sampled.",
          "Guard pages see accesses past the flush end of a caller buffer; the instance's own tables and process()'s internal Vec are covered by the debug-assertion build only. Non-address UB is out of reach.", "3/C03"),
  "C04": ("bounded-exhaustive enumeration of lengths (fresh and reused planners) + plan-only sweep through the plan-report hook + proptest structured large lengths",
          "Every n in 0..8192 (quick) / 0..65536 (thorough) is planned and constructed on all four planners, both types and directions, on fresh planners and on planners reused over windows of 256 lengths; plans are designed (not built) for every n up to 2^20/2^22 and their length recomputed independently. Exhaustive over the stated ranges.",
          "Lengths above the bounds are not explored; the plan-only part trusts the plan-report hook.", "3/C04"),
  "C05": ("operation-counting element type (exact, input-independent counts) enumerated over lengths and over long planning histories on one planner; construction hook recording every naive DFT the library builds + independent parser of the plan-report hook for the structural clause; enumeration of advertised scratch lengths (fresh planners and (M,p) histories)",
-         "Exact add/sub/mul counts of the portable planned transform for every n<=8192/32768 on all entry points and three inputs (must be identical and <= 64 n log2 n), and for every transform returned along ascending/descending/prime-neighbourhood/shuffled histories of up to thousands of requests on ONE planner; building the plan of every n<=16384/65536 on all four planners must not construct a naive DFT above 32 (construction hook), and every planner's plan text for every n<=2^20/2^22 is parsed for naive nodes; all advertised scratch lengths <= 12n+64 on fresh planners and after (M,p) histories.",
+         "Exact add/sub/mul counts of the portable planned transform for every n<=8192/32768 on all entry points and three inputs (must be identical and <= 64 n log2 n), and for every transform returned along ascending/descending/prime-neighbourhood/shuffled histories of up to thousands of requests on ONE planner; building the plan of every n<=16384/65536 on all four planners must not construct a naive DFT above 32 (construction hook), and every planner's plan text for every n<=2^20/2^22 is parsed for naive nodes; all advertised scratch lengths <= 12n+64 on fresh planners and after (M,p) histories; the work clause is repeated with a 256-byte counting element and on safe primes / Cunningham chains and their small multiples up to 2^18/2^19.",
          "For SSE/AVX the work clause itself cannot be counted (SIMD code does not accept a counting type); the no-naive-node clause is decided on constructed Dft instances (hook) in the built range and on the reported plan beyond it.", "3/C05"),
  "C06": ("metamorphic relations (inverse(forward(x)) = n*x, inverse = conj.forward.conj) over enumerated and proptest-drawn lengths, planning orders and entry-point pairs",
          "Oracle-free round trips for every n<=1536/4096 in all three planning orders, every prime up to 2^14/2^17 and thousands of structured lengths up to 2^18/2^22, tolerance 2.5*B.",
          "Errors symmetric in both directions cancel here (C01 covers them).", "3/C06"),
  "C07": ("differential (k-chunk call vs single-chunk calls, tolerance) + metamorphic isolation (other chunks replaced by NaN/Inf, bitwise) over enumerated and proptest-drawn cases",
-         "Every n<=1024/2048 x planners x types x directions x 4 entry points with chunk counts 2..8 (and 9..17 for short transforms and in the sampled part), also on transforms from planners with a minimal history, plus thousands of structured lengths; isolation is decided bit-for-bit with NaN taint.",
+         "Every n<=1024/2048 x planners x types x directions x 4 entry points with chunk counts 2..8 (and 9..17 for short transforms and in the sampled part), the k-chunk call given exactly the advertised scratch or an oversized one (2x, one per chunk, +4n), also on transforms from planners with a minimal history, plus thousands of structured lengths; isolation is decided bit-for-bit with NaN taint.",
          "Bitwise isolation assumes identical code paths for identical chunk positions (true by construction of the test).", "3/C07"),
  "C08": ("metamorphic: scratch/output initial contents (NaN, +-Inf, huge) and scratch length varied against a baseline call, outputs compared bit-for-bit, NaN taint",
-         "Every n<=2048/3000 x planners x types x directions x the three explicit-scratch entry points with exact advertised scratch (must not panic) and a rotating grid of slack x fills; thousands of structured lengths.",
+         "Every n<=2048/3000 x planners x types x directions x the three explicit-scratch entry points with exact advertised scratch (must not panic) and a rotating grid of slack (+1, +17, 2x, one scratch per chunk, +4n) x fills x chunk counts 1..9; thousands of structured lengths.",
          "Assumes determinism of a transform for identical inputs (C11).", "3/C08"),
  "C09": ("bounded-exhaustive call-shape matrix with the verdict computed from the property text, catch_unwind oracle, guard-paged buffers, on optimised and debug-assertion builds",
          "For every transform with n<=48/128 the full product of data/output/scratch lengths, one-dimension-at-a-time up to 256/1024, and sampled structured lengths: well-shaped calls never panic and transform every chunk, ill-shaped calls always panic, and a well-shaped call right after each failed call on the same instance completes.",
          "n=0 and empty data are outside the property's wording and not judged.", "3/C09"),
  "C10": ("model-based generation of planning histories: bounded-exhaustive sequences (length<=3) over request pools derived from each target's own plan, proptest-drawn sequences (length<=12) over divisor lattices; every returned transform judged against the reference DFT; twin-planner bitwise differential",
-         "All sequences of <=3 related requests over derived pools on the Scalar/Sse/Avx planners and thousands of random histories on all four; every transform of a history must satisfy C01/C02/C06 after the planner is dropped, and a twin planner must agree bit-for-bit.",
+         "All sequences of <=3 related requests over derived pools on the Scalar/Sse/Avx planners, (M,p) pairs continued with multiples of p, neighbour histories [p-1,p], [(p-1)/2,p-1,p], [p,2p,2p+1] for every prime up to 600/4000, window-fill histories and thousands of random histories on all four; every transform of a history must satisfy C01/C02/C06 after the planner is dropped (the last request through all four entry points with exactly the advertised scratch), a twin planner must agree bit-for-bit, and 'plan lifetime' histories in which the caller drops each transform before the next request (lengths up to 2^20/2^23) must keep returning correct transforms.",
          "Pools are derived with the plan-report hook; histories outside the pools/lattices are not explored.", "3/C10"),
  "C11": ("stress generation: isolated-call reference vs call histories and 16 threads sharing one instance on adjacent sub-slices of one allocation, bitwise comparison; compile-time Send/Sync obligations",
          "For ~240 sampled transforms: 16 threads making the FIRST calls on a never-used instance simultaneously (cold start, 3 fresh instances per case), a single-thread history with interleaved ill-shaped calls (caught panics, also on a thread that ends), and 16 threads x hundreds/thousands of rounds of mixed entry points, chunk counts and magnitudes (down to subnormals) must all reproduce isolated single calls bit-for-bit. Brute-force exploration of schedules only.",
          "The harness does not own the scheduler: a race needing a rare interleaving can survive; no structural proof is attempted by this technique family.", "3/C11"),
  "C12": ("bounded-exhaustive enumeration of constructor trees (depth<=2) + length-directed random trees (proptest), each run through the C01/C03/C07/C08/C09 call-level oracles and the exact GF(p^2) oracle",
-         "Every depth<=1 tree over leaves of length 1..32 and the stated depth-2 family within the length caps, plus thousands of random trees up to depth 4 / length 20000; construction inside documented preconditions must not panic and the composite must satisfy the call-level checks.",
+         "Every depth<=1 tree over leaves of length 1..32 and the stated depth-2 family within the length caps, every constructor over the transform each concrete planner returns for every length up to 600/2000, ~150/250 constructed large trees (composite length 30 000..300 000/1 200 000, every constructor kind), plus thousands of random trees up to depth 4 / length 20000; construction inside documented preconditions must not panic and the composite must satisfy the call-level checks.",
          "Preconditions are re-checked on the built children; the *Small constructors' asserts are treated as documented preconditions.", "3/C12"),
  "C13": ("exhaustive configuration matrix (4 compiled feature sets x 7 run-time capability masks x 2 types), each running the C04/C01/C02/C03 generators on the automatic and dedicated planners",
          "All 56 (configuration, type) pairs: chosen planner equals the documented fallback chain, dedicated planners return Err exactly when unavailable, and the transforms pass the planning, numeric and guard-page checks.",
